@@ -74,7 +74,7 @@ def execute(case, script=None):
     pv = POMDPView(case['spec'])
     ctx = RunCtx(PROP, None)
     ctx.declare_probes('exec_histories', 'multi_node_stochastic', 'evaluator_checked', 'absorbing_with_reward', 'bpi_runs', 'bpi_tables',
-                       'bpi_node_added', 'ga_runs', 'low_probability_action_taken', 'execution_longer_than_700_steps')
+                       'bpi_node_added', 'bpi_candidate_lowered_value', 'ga_runs', 'low_probability_action_taken', 'execution_longer_than_700_steps')
     sched = make_scheduler(case, script, ctx)
     try:
         cfg = case['cfg']
@@ -197,6 +197,7 @@ def _learner(pv, cfg, ctx, sched):
     if _has_paying_absorbing(pv):
         ctx.probe('absorbing_with_reward')
     tables = []
+    ctrls = []
     if cfg['what'] == 'bpi':
         import msdm.algorithms.fscboundedpolicyiteration as bpi
         ctx.probe('bpi_runs')
@@ -206,6 +207,7 @@ def _learner(pv, cfg, ctx, sched):
             r = orig(*a, **k)
             try:
                 tables.append(np.array(r.state_controller_value.detach().numpy(), dtype=float))
+                ctrls.append((np.array(a[1].detach().numpy(), dtype=float), np.array(a[2].detach().numpy(), dtype=float)))
             except Exception:
                 pass
             return r
@@ -252,23 +254,87 @@ def _learner(pv, cfg, ctx, sched):
               lambda: f"{cfg['what']}: reported value {reported!r} is not the exact evaluation of the returned controller at the initial distribution {refv!r}")
     if cfg['what'] == 'bpi':
         ctx.probe('bpi_tables', len(tables))
-        for i in range(1, len(tables)):
-            a, b = tables[i - 1], tables[i]
-            ctx.check(b.shape[0] >= a.shape[0] and b.shape[1] == a.shape[1], 'bpi-monotone', lambda: f"value table {i} has shape {b.shape} after {a.shape}")
-            if b.shape[0] > a.shape[0]:
-                ctx.probe('bpi_node_added')
-            bb = b[:a.shape[0]]
-            ok = np.isclose(bb, a) | (bb > a)
-            ctx.check(ok.all(), 'bpi-monotone', lambda: f"bounded policy iteration lowered a node's value between evaluations {i - 1} and {i}: "
-                      f"{a.tolist()} -> {bb.tolist()}")
-        if tables:
-            ctx.check(np.allclose(tables[-1], arr(res.state_controller_value), atol=1e-9), 'reported-value',
-                      "state_controller_value is not the last evaluation made")
+        _bpi_monotone(ctx, tables, ctrls, As, Ns, arr(res.state_controller_value))
     from sim.ctx import digest_of
     out = ctx.result()
     out['digest'] = digest_of([out['digest'], cfg, round(reported, 9), As.round(9).tolist()])
     out['nontrivial'] = ctx.clauses > 0
     return out
+
+
+
+def _same(c1, c2):
+    return c1[0].shape == c2[0].shape and np.array_equal(c1[0], c2[0]) and np.array_equal(c1[1], c2[1])
+
+
+def _changed_nodes(base, cand):
+    return [n for n in range(base[0].shape[0]) if not (np.array_equal(base[0][n], cand[0][n]) and np.array_equal(base[1][n], cand[1][n]))]
+
+
+def _bpi_monotone(ctx, tables, ctrls, As, Ns, final_table):
+    """Every controller bounded policy iteration evaluates is the controller it currently holds, that controller with one
+    node re-solved (a candidate) or with one node added.  A candidate whose exact evaluation lowers some value is not an
+    iteration's result as long as the library discards it (it may legitimately be proposed and discarded again in the next
+    iteration, when nothing else has changed); what the library HOLDS must never go down.  The harness follows which
+    controllers are held: `bases` are the controllers the library may legitimately hold at this point, `rejected` the
+    candidates since the last accepted change whose evaluation lowered a value.  Holding a rejected candidate shows as soon
+    as a node is added to it, another node is re-solved on top of it, or it is returned."""
+    if len(tables) != len(ctrls) or not tables:
+        ctx.check(len(tables) == len(ctrls), 'bpi-monotone', "evaluator seam: controller arguments could not be recorded")
+        return
+
+    def lowered(r):
+        return f"{r[1].tolist()} -> {r[2].tolist()}"
+    bases = [(ctrls[0], tables[0])]
+    rejected = []          # (controller, table of the base it was derived from, its own table)
+    for i in range(1, len(tables)):
+        c, t = ctrls[i], tables[i]
+        n_prev = bases[0][0][0].shape[0]
+        ctx.check(t.shape[1] == bases[0][1].shape[1] and c[0].shape[0] in (n_prev, n_prev + 1), 'bpi-monotone',
+                  lambda: f"evaluation {i}: value table has shape {t.shape} after {bases[0][1].shape}")
+        if c[0].shape[0] == n_prev + 1:
+            ctx.probe('bpi_node_added')
+            pre = (c[0][:n_prev], c[1][:n_prev, :, :, :n_prev])
+            m = [b for b in bases if _same(pre, b[0])]
+            if not m:
+                kept = [r for r in rejected if _same(pre, r[0])]
+                raise Violation('bpi-monotone', f"evaluation {i}: bounded policy iteration lowered a node's value and kept the controller (a node was then added to it): {lowered(kept[0])}"
+                                if kept else f"evaluation {i}: a node was added to a controller that is not the one held")
+            bt = m[0][1]
+            bb = t[:n_prev]
+            ctx.check((np.isclose(bb, bt) | (bb > bt)).all(), 'bpi-monotone',
+                      lambda: f"adding a node lowered an existing node's value (evaluation {i}): {bt.tolist()} -> {bb.tolist()}")
+            bases, rejected = [(c, t)], []
+            continue
+        same = [b for b in bases if _same(c, b[0])]
+        if same:
+            ctx.check(np.allclose(t, same[0][1], atol=1e-9), 'bpi-monotone', lambda: f"evaluation {i}: the same controller evaluated twice gave {same[0][1].tolist()} then {t.tolist()}")
+            continue
+        if any(_same(c, r[0]) for r in rejected):
+            continue            # proposed again and, one hopes, discarded again: decided by what follows
+        m = [b for b in bases if len(_changed_nodes(b[0], c)) == 1]
+        if not m:
+            kept = [r for r in rejected if len(_changed_nodes(r[0], c)) <= 1]
+            raise Violation('bpi-monotone', f"evaluation {i}: bounded policy iteration lowered a node's value and kept the controller (another node was then re-solved on top of it): {lowered(kept[0])}"
+                            if kept else f"evaluation {i}: the controller evaluated differs from the controller held in {[len(_changed_nodes(b[0], c)) for b in bases]} nodes")
+        bt = m[0][1]
+        ok = (np.isclose(t, bt) | (t > bt)).all()
+        if not ok:
+            ctx.probe('bpi_candidate_lowered_value')
+            rejected.append((c, bt, t))          # legitimate only if the library discards it
+        elif (t > bt).any():
+            bases, rejected = [(c, t)], []
+        else:
+            bases = [m[0], (c, t)]         # no strict improvement anywhere: keeping or discarding it are both legitimate
+
+    def is_returned(c):
+        return c[0].shape == As.shape and np.allclose(c[0], As, atol=1e-12) and np.allclose(c[1], Ns, atol=1e-12)
+    held = [b for b in bases if is_returned(b[0])]
+    if not held:
+        kept = [r for r in rejected if is_returned(r[0])]
+        raise Violation('bpi-monotone', f"bounded policy iteration returned a controller whose evaluation had lowered a node's value: {lowered(kept[0])}"
+                        if kept else "the returned controller is not the controller held after the last evaluation")
+    ctx.check(np.allclose(held[0][1], final_table, atol=1e-9), 'reported-value', "state_controller_value is not the evaluation of the returned controller")
 
 
 def sample_repr(case, out):
